@@ -1,6 +1,7 @@
 package checks
 
 import (
+	"crypto/sha256"
 	"fmt"
 	"strings"
 	"testing"
@@ -99,6 +100,9 @@ func execC02Bubble(r *kernel.Run, s C02Spec) {
 			nonce = big.NewInt(int64(w.hr.IntN(3)))
 		case 2:
 			ctx, nonce = big.NewInt(int64(w.hr.IntN(2))), big.NewInt(int64(w.hr.IntN(2)))
+		case 3:
+			// long values (a signature session's nonce is derived from a message and a timestamp)
+			ctx, nonce = randBits(w.hr, 300+w.hr.IntN(500)), randBits(w.hr, 257+w.hr.IntN(600))
 		}
 		bs := w.BuildSession(keys, []*big.Int{secret}, cs.Builders, ctx, nonce, cs.IsSig)
 		live = append(live, bs)
@@ -224,6 +228,20 @@ func execC02Bubble(r *kernel.Run, s C02Spec) {
 			base(wh+"<<8", wh, func(c, n **big.Int, _ *bool, _ *[]*gabikeys.PublicKey, _ *[]string) {
 				p := sel(c, n)
 				*p = new(big.Int).Lsh(*p, 8)
+			})
+			// structured relatives of the value: its SHA-256 digest, its low 256 bits, its high part
+			base(wh+"=sha256", wh, func(c, n **big.Int, _ *bool, _ *[]*gabikeys.PublicKey, _ *[]string) {
+				p := sel(c, n)
+				h := sha256.Sum256((*p).Bytes())
+				*p = new(big.Int).SetBytes(h[:])
+			})
+			base(wh+"=low256", wh, func(c, n **big.Int, _ *bool, _ *[]*gabikeys.PublicKey, _ *[]string) {
+				p := sel(c, n)
+				*p = new(big.Int).Mod(*p, pow2(256))
+			})
+			base(wh+">>8", wh, func(c, n **big.Int, _ *bool, _ *[]*gabikeys.PublicKey, _ *[]string) {
+				p := sel(c, n)
+				*p = new(big.Int).Rsh(*p, 8)
 			})
 		}
 		base("context<->nonce", "swap-context-nonce", func(c, n **big.Int, _ *bool, _ *[]*gabikeys.PublicKey, _ *[]string) { *c, *n = *n, *c })
